@@ -503,6 +503,33 @@ pub fn run(prop: &str, tier: &str, seed: u64, outdir: &str) {
         let mut rr = r.fork();
         jobs.push(gen_job(&mut rr, &w, i % 2 == 1, i));
     }
+    // directed: names a credential does not hold, among them the name the link secret is signed under, as single
+    // attributes and inside groups, revealed and not
+    for w3c in [false, true] {
+        for secret_name in ["master_secret", "Master_Secret", "MASTER SECRET", "ssn"] {
+            for reveal in [true, false] {
+                let single = ReqSpec::new(crate::vcases::NONCE).attr("a1", "name").attr("a2", secret_name);
+                let group = ReqSpec::new(crate::vcases::NONCE).group("g1", &["name", secret_name]);
+                let group_only = ReqSpec::new(crate::vcases::NONCE).attr("a1", "name").group("g1", &[secret_name]);
+                for (tag, req, attrs) in [
+                    ("single", single, vec![("a1".to_string(), true), ("a2".to_string(), reveal)]),
+                    ("group", group, vec![("g1".to_string(), reveal)]),
+                    ("group-of-one", group_only, vec![("a1".to_string(), true), ("g1".to_string(), reveal)]),
+                ] {
+                    jobs.push(PJob {
+                        class: format!("faulty+name-not-held+{}+{}", tag, if vw::cvn(secret_name) == "master_secret" { "link-secret-name" } else { "other-name" }),
+                        w3c,
+                        req,
+                        picks: vec![Pick { cred: 0, attrs, preds: vec![], list: None, inc: false }],
+                        self_att: vec![],
+                        ctx: VCtx::full(&w),
+                        expect_honest: false,
+                        multi_proof: false,
+                    });
+                }
+            }
+        }
+    }
     let results = crate::par::par_map(&jobs, crate::par::ncpu(), |_, j| run_job(&w, j));
     for (j, res) in jobs.iter().zip(results) {
         match res {
